@@ -8,7 +8,8 @@ Tie (T)    : tools/tx_c08_shuffle.py re-reads the literal reshape / transpose /
              about (one obligation per constant).
 Tie (K)    : the executable model (coq/Model/C08.v, vm_compute) against the
              real to_choi / to_super / to_chi / kraus_to_choi / _superpauli_basis
-             / _svd_u_to_kraus / _choi_to_stinespring / Qobj.ishp / Qobj.istp on
+             / _svd_u_to_kraus / _choi_to_stinespring / Qobj.ishp / Qobj.istp /
+             Qobj.dual_chan on
              generated Gaussian-integer inputs, compared exactly (data, dims
              labels, superrep tag, error class).
 Oracle     : the property itself on real qutip objects: every representation
@@ -29,7 +30,7 @@ import vlib
 from vlib import cnat, clist
 
 HEADER = ("From Coq Require Import List ZArith Bool.\nImport ListNotations.\n"
-          "From QV Require Import Model.C08.\nLocal Open Scope Z_scope.\n")
+          "From QV Require Import Model.C08 Model.C08_ext.\nLocal Open Scope Z_scope.\n")
 
 VAL_TOL = 1e-9          # labelled validation tolerance where eig / SVD enter
 
@@ -986,8 +987,8 @@ def run(ctx):
             ctx.violation("tx:superop_reps._super_tofrom_choi", "outside-subset",
                           "translator refused the source: %s" % e, {"error": str(e)},
                           found_input=False)
-    targets = ["Props/C08.vo", "Props/C08_alg.vo"]
-    props = ["Props/C08.v", "Props/C08_alg.v"]
+    targets = ["Props/C08.vo", "Props/C08_alg.vo", "Props/C08_ext.vo", "Props/C08_alg2.vo"]
+    props = ["Props/C08.v", "Props/C08_alg.v", "Props/C08_ext.v", "Props/C08_alg2.v"]
     if tx_ok:
         targets.append("Gen/C08_shuffle.vo")
         props.append("Gen/C08_shuffle.v")
@@ -1082,6 +1083,33 @@ def run(ctx):
         iv = impl_kraus(ks)
         expr = "let r := kraus_to_choi %s in (observe r, err_code r)" % clist(ks, c_oper)
         add("kraus_to_choi", {"family": "kraus", "ks": ks}, expr, iv, canon_model_obs,
+            not (iv and iv[0] == "err"))
+    # dual_chan of CP maps given exactly (supermatrix, Choi matrix or plain operator)
+    for k in range(18 if ctx.quick else 150):
+        spec = gen_map(rng, 4, rng.choice(["cp", "cp1", "measure", "isometry", "unitary"]))
+        if prod(spec["din"]) * prod(spec["dout"]) > 12:
+            continue
+        din_, dout_ = spec["din"], spec["dout"]
+        form = rng.choice(["super", "choi", "oper"])
+        if form == "oper" and not (spec.get("as_oper") and len(spec["terms"]) == 1):
+            form = "super"
+        if form == "super":
+            o = {"kind": "super", "dims": [dout_, dout_, din_, din_], "rep": "super",
+                 "data": gz_list(ref_super(spec))}
+        elif form == "choi":
+            o = {"kind": "super", "dims": [din_, dout_, din_, dout_], "rep": "choi",
+                 "data": gz_list(ref_choi(spec))}
+        else:
+            o = {"kind": "oper", "m": prod(dout_), "n": prod(din_), "dl": dout_, "dr": din_,
+                 "data": spec["terms"][0]["L"]}
+        try:
+            with warnings.catch_warnings():
+                warnings.simplefilter("ignore")
+                iv = canon_super(mk_qobj(o).dual_chan())
+        except Exception as e:
+            iv = ("err", err_name(e))
+        add("dual_chan", {"family": "dual", "obj": o},
+            "let r := dual_chan %s in (observe r, err_code r)" % c_qobj(o), iv, canon_model_obs,
             not (iv and iv[0] == "err"))
     # Pauli basis
     for nq in ([1, 2] if ctx.quick else [1, 2, 3]):
@@ -1244,6 +1272,20 @@ def replay(ctx, payload):
         hit = [x for x in f if x[0] == payload["site"] and x[1] == payload["signature"]] or f
         for site, sig, what, extra in hit[:1]:
             ctx.violation(site, sig, what, {"map": d["map"], "extra": extra})
+    elif "case" in d and d["case"].get("family") == "dual":
+        o = d["case"]["obj"]
+        try:
+            with warnings.catch_warnings():
+                warnings.simplefilter("ignore")
+                iv = canon_super(mk_qobj(o).dual_chan())
+        except Exception as e:
+            iv = ("err", err_name(e))
+        vals = vlib.coq_eval_values("replay_C08", HEADER,
+                                    ["let r := dual_chan %s in (observe r, err_code r)" % c_qobj(o)])
+        mv = canon_model_obs(vlib.parse_coq_value(vals[0]))
+        if _norm(iv) != _norm(mv):
+            ctx.violation(payload["site"], payload["signature"], payload["what"],
+                          {"case": d["case"], "impl": _short(iv), "model": _short(mv)})
     elif "case" in d and d["case"].get("family") == "conv":
         c = d["case"]
         iv = impl_conv(c["op"], c["obj"])
